@@ -478,7 +478,10 @@ func ruleEFF4(w *World) []Ob {
 	// (a)+(b): gate functions = non-owner library functions invoking mkdir/verify of a stage owner
 	nGates := 0
 	for _, fn := range libFuncs(p) {
-		if stageOwners[recvTypeName(fn)] || fn.Parent() != nil {
+		if stageOwners[recvTypeName(fn)] {
+			continue
+		}
+		if fn.Parent() != nil && !strings.HasPrefix(fn.Synthetic, "range-over-func") {
 			continue
 		}
 		fid := p.FuncID(fn)
@@ -749,6 +752,29 @@ func ruleEFF4(w *World) []Ob {
 	}
 	if nE == 0 {
 		l.undecided("-", "entries needing grown nodes", "-", "none found", "encode")
+	}
+	// conversely, the output entries must keep the encoding the caller asked for
+	nK := 0
+	for _, e := range exportedEntries(p) {
+		if !strings.HasPrefix(e.Name(), "Output") {
+			continue
+		}
+		allInstrs(e, func(in ssa.Instruction) {
+			c, ok := in.(*ssa.Call)
+			if !ok || c.Common().StaticCallee() == nil || c.Common().StaticCallee().Name() != "initializeTree" {
+				return
+			}
+			nK++
+			construct := "encoding option reaches the tree"
+			if why, forced := fieldEstablished(p, c.Common().Args[0], c, encField, 0); forced {
+				l.bad(p.FuncID(e), construct, p.InstrPos(c), "the output entry point resets config."+encField+" to the default ("+why+"): WithEncodeJSON/YAML/TOML is silently ignored here", "encode-kept")
+			} else {
+				l.ok(p.FuncID(e), construct, p.InstrPos(c), "config."+encField+" is what the options set", true, "encode-kept")
+			}
+		})
+	}
+	if nK == 0 {
+		l.undecided("-", "output entries", "-", "none found", "encode-kept")
 	}
 	return l.list
 }
@@ -1229,6 +1255,16 @@ func ruleEFF6(w *World) []Ob {
 			targ := test.Common().Args[len(test.Common().Args)-1]
 			if !coversNode(targ, node) {
 				l.bad(fid, construct, pos, "the existence test is not applied to the collection the created root comes from (tested: "+describeValue(targ)+", created: "+describeValue(node)+")", "exists")
+				return
+			}
+			isWorker := false
+			for _, ci := range p.Callers(fn) {
+				if _, isGo := ci.(*ssa.Go); isGo {
+					isWorker = true
+				}
+			}
+			if !isWorker && inLoop(c) && reachableAfter(c, test) {
+				l.bad(fid, construct, pos, "the existence test runs inside the creation loop: roots handled before a pre-existing one are already created when the path-exists error is returned, so the filesystem is not left unchanged", "exists")
 				return
 			}
 			if why := statsEveryElement(p, test.Common().StaticCallee(), nc); why != "" {
